@@ -45,7 +45,7 @@ def main(argv=None):
         return 0
     seed = a.seed if a.seed is not None else int(os.environ.get("VERIF_SEED", "0") or 0)
     tier = a.tier if a.tier in ("quick", "thorough") else "quick"
-    return framework.run_check(pid, tier=tier, seed=seed, workers=a.workers, budget=a.budget, batches=a.batches)
+    return framework.run_check(pid, tier=tier, seed=seed, workers=a.workers, budget=a.budget, batches=a.batches, evidence=not a.no_evidence)
 
 
 if __name__ == "__main__":
